@@ -17,3 +17,4 @@ def load(name):
     return _CACHE[name]
 REGISTRY["ark_encoding"] = ("arkcurve", "encoding")
 REGISTRY["ark_ops"] = ("arkcurve", "ops")
+REGISTRY["ark_element"] = ("arkcurve", "element")
